@@ -39,3 +39,29 @@ func VerifC16Frames() {
 	lib.VerifAssert(lib.VerifAllocMax() <= 8192+2*n, "allocations stay in proportion to the input")
 	lib.VerifReach("input consumed")
 }
+
+// VerifC16Decompress: a compressed-message frame whose envelope declares an unpacked size taken from
+// a boundary set (the data behind it is short): handling it must not allocate out of proportion to
+// the frame, must not crash the node and delivers nothing.
+func VerifC16Decompress() {
+	decl := []uint32{0, 1, 8, 4096, 65536, 1 << 20, 1 << 26, 0xffffffff}
+	d := decl[lib.VerifPick("declared", len(decl))]
+	switch lib.VerifParam("known:decompress-declared-size", 0) {
+	case 1:
+		lib.VerifAssume(d <= 65536)
+	case 2:
+		lib.VerifAssume(d > 65536)
+	}
+	ctype := []byte{100, 101, 102}[lib.VerifPick("type", 3)] // lzw, zlib, gzip
+	frame := []byte{protoMagic, protoVersion, 0, 0, 0, 17, 0, protoMessageZ, ctype,
+		byte(d >> 24), byte(d >> 16), byte(d >> 8), byte(d), lib.VerifByte("z"), 0, 0, 0}
+	core := &vfCore{name: "b@h", creation: 22}
+	r, _ := vfConnection(core, "a@h", 11, 1)
+	conn := &vfConn{chunks: [][]byte{frame}, failAt: -1}
+	lib.VerifAllocReset()
+	r.serve(conn, nil)
+	lib.VerifYield()
+	lib.VerifAssert(len(core.calls) == 0, "a frame that does not unpack delivers nothing")
+	lib.VerifAssert(lib.VerifAllocMax() <= 65536+64*len(frame), "allocations stay in proportion to the input")
+	lib.VerifReach("compressed frame handled")
+}
